@@ -166,6 +166,22 @@ class DisplacementMove(
 
         (context._moving_indices,) = np.where(self.labels == self.to_displace_labels)
 
+        # the labels describe the atoms as they were before the trial: atoms deleted
+        # earlier in the same trial (a composite with an exchange move) are gone and
+        # the atoms behind them have moved up
+        deleted_indices = np.asarray(
+            getattr(context, "_deleted_indices", []), dtype=np.int_
+        )
+
+        if len(deleted_indices):
+            remaining = np.setdiff1d(context._moving_indices, deleted_indices)
+            context._moving_indices = remaining - np.searchsorted(
+                np.sort(deleted_indices), remaining
+            )
+
+            if not len(context._moving_indices):
+                return self.register_failure()
+
         if self.attempt_displacement(context):
             return self.register_success()
         else:
